@@ -118,6 +118,9 @@ func c14(c *Ctx) {
 	r.Floor("H265 accessor table rows", n, 25)
 	c14Parsers(c)
 	c14Payloader(c)
+	np := presenceRule(c, "codecs.(*H265SingleNALUnitPacket).Unmarshal", []presRow{{"mightNeedDONL", []string{"donl"}}})
+	np += presenceRule(c, "codecs.(*H265FragmentationUnitPacket).Unmarshal", []presRow{{"mightNeedDONL", []string{"donl"}}})
+	r.Floor("H265 DONL presence rows", np, 2)
 	var entries []*ssa.Function
 	for _, nme := range []string{"codecs.(*H265Payloader).Payload", "codecs.(*H265Packet).Unmarshal", "codecs.(*H265Packet).IsPartitionHead"} {
 		if f := p.Func(nme); f != nil {
